@@ -44,6 +44,13 @@ func cfgT() cors.Config {
 	return cors.Config{Origins: []string{"https://b.example"}, Methods: []string{"DELETE"}, RequestHeaders: []string{"X-B"}, ResponseHeaders: []string{"X-Rb"}, MaxAgeInSeconds: 30}
 }
 
+// cfgAtol is A with both DangerouslyTolerate* switches on: no response differs from A's, Config() does.
+func cfgAtol() cors.Config {
+	c := cfgA()
+	c.DangerouslyTolerateInsecureOrigins, c.DangerouslyTolerateSubdomainsOfPublicSuffixes = true, true
+	return c
+}
+
 // tpl is the one long-lived Config value of the "tplA"/"tplT" reconfigurations: its list elements are overwritten
 // in place and the same value is handed to Reconfigure again (what a reload loop that unmarshals into one variable
 // does). Each long run starts with a fresh one.
@@ -198,6 +205,9 @@ func doOp(m *cors.Middleware, o opSpec) string {
 			err = m.Reconfigure(&c)
 		case "A+":
 			c := cfgAplus()
+			err = m.Reconfigure(&c)
+		case "A~":
+			c := cfgAtol()
 			err = m.Reconfigure(&c)
 		case "invalid":
 			c := cfgInvalid()
@@ -595,6 +605,8 @@ var longRunPatterns = [][]opSpec{
 	// one Config value whose list elements are overwritten in place between two Reconfigure calls
 	{{"reconfigure", "tplT"}, {"reconfigure", "tplA"}, {"setdebug", "true"}, {"reconfigure", "tplT"}, {"config", ""}, {"reconfigure", "tplA"}, {"setdebug", "false"}},
 	{{"reconfigure", "tplT"}, {"reconfigure", "B"}, {"reconfigure", "tplT"}, {"reconfigure", "tplA"}, {"reconfigure", "A+"}, {"setdebug", "true"}, {"reconfigure", "tplA"}, {"reconfigure", "invalid"}, {"reconfigure", "tplT"}},
+	// configurations that no response tells apart (A and A with the DangerouslyTolerate* switches on)
+	{{"reconfigure", "A~"}, {"reconfigure", "A"}, {"setdebug", "true"}, {"reconfigure", "A~"}, {"config", ""}, {"reconfigure", "tplA"}, {"reconfigure", "A~"}, {"setdebug", "false"}},
 }
 
 // longRunExpectation: what a middleware built directly for one (configuration, debug) state answers to the probes,
@@ -609,12 +621,12 @@ type longRunExpectation struct {
 var longRunExpect = map[string]longRunExpectation{}
 
 func warmLongRunExpect() {
-	for _, cfg := range []string{"", "A", "B", "A+", "T"} {
+	for _, cfg := range []string{"", "A", "B", "A+", "T", "A~"} {
 		for _, dbg := range []bool{false, true} {
 			var e longRunExpectation
 			fresh := new(cors.Middleware)
 			if cfg != "" {
-				c := map[string]func() cors.Config{"A": cfgA, "B": cfgB, "A+": cfgAplus, "T": cfgT}[cfg]()
+				c := map[string]func() cors.Config{"A": cfgA, "B": cfgB, "A+": cfgAplus, "T": cfgT, "A~": cfgAtol}[cfg]()
 				var err error
 				if fresh, err = cors.NewMiddleware(c); err != nil {
 					e.err = "configuration " + cfg + " rejected: " + err.Error()
@@ -885,7 +897,7 @@ func main() {
 			}
 		}
 	}
-	c.Set("long_run_gaps", len(longRunGaps(0))+len(longRunGaps(1))+len(longRunGaps(2))+len(longRunGaps(3)))
+	c.Set("long_run_gaps", len(longRunGaps(0))+len(longRunGaps(1))+len(longRunGaps(2))+len(longRunGaps(3))+len(longRunGaps(4)))
 	if c.Violated() {
 		// the sequential pre-pass has a witness already; code that fails it may keep process-wide state, under which
 		// the schedule exploration below would not even be deterministic
